@@ -153,7 +153,7 @@ func concJobs(sp space) []driver.Job {
 		fsKind := strings.HasPrefix(kind, "oci") || strings.HasPrefix(kind, "file")
 		for _, m := range two {
 			d := 2
-			if !m.observer || sp.thorough {
+			if !m.observer {
 				d = 3
 			}
 			nsh := 1
@@ -161,9 +161,6 @@ func concJobs(sp space) []driver.Job {
 				nsh = 2
 			}
 			if d == 3 {
-				nsh *= 4
-			}
-			if d == 3 && m.observer {
 				nsh *= 4
 			}
 			plans = append(plans, plan{m, explore.Bounds{Dev: d}, nsh})
